@@ -487,8 +487,11 @@ def rule_pair(ck):
     ex = Expander(P, f)
     rets = [r for r in returns(f) if r.value is not None]
     o = ck.ob('C09-D3.pair', f, rets[0].value if rets else 'return', rets[0] if rets else f.node)
-    if len(rets) != 1:
+    # an early `return None, None` for an empty sample is the pair (None, None) the ecdf functions themselves would give
+    main = [r for r in rets if not (isinstance(r.value, ast.Tuple) and all(const_value(x) is None for x in r.value.elts))]
+    if len(main) != 1:
         raise Inconclusive('get_quantiles has %d returns' % len(rets))
+    rets = main
     e = ex.expand(rets[0].value)
     ps = f.positional_params
     if not (isinstance(e, ast.Tuple) and len(e.elts) == 2):
@@ -503,9 +506,20 @@ def rule_pair(ck):
         m, ok = bind_args(P.func(w), elt)
         g = P.func(w)
         a, b = m.get(g.positional_params[0]), m.get(g.positional_params[1])
+        a, b = (strip_shape(a) if a is not None else None), b
         if not (isinstance(a, ast.Name) and a.id == ps[0] and isinstance(b, ast.Name) and b.id == ps[1]):
             probs.append('component %d is called as (%s, %s), expected (%s, %s)' % (
                 k, u(a) if a is not None else '?', u(b) if b is not None else '?', ps[0], ps[1]))
+        cdf = m.get('cdf')
+        if cdf is not None and not (isinstance(cdf, ast.Constant) or (isinstance(cdf, ast.Tuple) and not cdf.elts)):
+            # a precomputed distribution must be the ecdf of the same sample, one support point per sample value: the rank
+            # arithmetic of the ecdf functions counts positions
+            ctxt = u(cdf)
+            if not (isinstance(cdf, ast.Call) and call_name(cdf) == M + 'ecdf' and cdf.args and u(strip_shape(cdf.args[0])) == ps[0]) and \
+                    not (isinstance(cdf, ast.Tuple) and len(cdf.elts) == 2 and all(is_marker(x, '__item__') and isinstance(x.args[0], ast.Call)
+                                                                                 and call_name(x.args[0]) == M + 'ecdf' for x in cdf.elts)):
+                probs.append('component %d is given the precomputed distribution `%s`, which is not ecdf(%s): the ecdf functions index it by '
+                             'sample position (one entry per sample value, ties repeated)' % (k, ctxt[:70], ps[0]))
     (o.fail('; '.join(probs) + ': callers unpack (delta_1 = P(X >= obs), delta_2 = P(X <= obs))') if probs
      else o.ok('(greater_equal_ecdf(sim, obs), less_equal_ecdf(sim, obs))'))
     # binned_ecdf
